@@ -51,6 +51,8 @@ func (s Sort) SMT() string {
 type Term struct {
 	S    string
 	Sort Sort
+	// Conj: the conjuncts of an (and ...) term, for syntactic fact caching
+	Conj []*Term
 }
 
 func (t *Term) String() string { return t.S }
@@ -127,6 +129,7 @@ func Not(a *Term) *Term {
 
 func And(ts ...*Term) *Term {
 	var parts []string
+	var conj []*Term
 	for _, t := range ts {
 		if t == nil || t == True || t.S == "true" {
 			continue
@@ -135,14 +138,15 @@ func And(ts ...*Term) *Term {
 			return False
 		}
 		parts = append(parts, t.S)
+		conj = append(conj, t)
 	}
 	switch len(parts) {
 	case 0:
 		return True
 	case 1:
-		return &Term{S: parts[0], Sort: Bool}
+		return conj[0]
 	}
-	return &Term{S: "(and " + strings.Join(parts, " ") + ")", Sort: Bool}
+	return &Term{S: "(and " + strings.Join(parts, " ") + ")", Sort: Bool, Conj: conj}
 }
 
 func Or(ts ...*Term) *Term {
